@@ -697,6 +697,35 @@ class Program:
     def closures_of(self, fid):
         return [f for k, f in self.fns.items() if k.startswith(fid + "::{closure")]
 
+    def closure_sites(self, clo):
+        """Where the parent body builds closure `clo`: [(parent fn, block, rvalue)]."""
+        m = re.search(r"(\{closure#\d+\})$", clo.id)
+        if not m or "::{closure" not in clo.id:
+            return []
+        par = self.fns.get(clo.id[:clo.id.rindex("::{closure")])
+        out = []
+        if par is not None:
+            for b in sorted(par.live):
+                for st in par.blocks[b]["s"]:
+                    rv = st["rv"]
+                    if rv["k"] == "agg" and str(rv.get("adt", "")).endswith(m.group(1)):
+                        out.append((par, b, rv))
+        return out
+
+    def captured_text(self, clo, text):
+        """Replace `arg1.N` (upvar N of closure `clo`) in an expression text by the parent's expression for it."""
+        sites = self.closure_sites(clo)
+        if not sites:
+            return text
+        par, b, rv = sites[0]
+
+        def sub(mm):
+            i = int(mm.group(1))
+            if i < len(rv.get("ops", [])):
+                return show(par.deep(rv["ops"][i])).lstrip("&")
+            return mm.group(0)
+        return re.sub(r"\*?arg1\.(\d+)", sub, text)
+
     def family(self, fid):
         """A body with its closures."""
         f = self.need(fid)
@@ -759,6 +788,93 @@ class Program:
 
     def fields(self, name):
         return [f[0] for f in self.adt(name)["variants"][0]["fields"]]
+
+
+# ---------------------------------------------------------------------------------------------------------------------
+# Rename-invariance.  Rules read reconstructed expressions in which user variables appear by name.  A behaviour-preserving
+# rename of a local (or parameter) must not change a verdict, so before any rule runs the named locals of every body are
+# mapped back to the names they had when the rules were written: /verif/reference/local_roles.json stores, per body, the
+# sequence of (name, name-free signature) of its named locals; if the current body has the same sequence of signatures, its
+# locals are given the reference names.  If the sequence differs (the body was edited in a way that touches a named local)
+# nothing is renamed and the rules see the source's own names, as before.
+
+def _operand_shape(fn, o):
+    if not isinstance(o, dict):
+        return "?"
+    if "const" in o:
+        return "c:%s" % (o.get("int") if o.get("int") is not None else str(o.get("const"))[:24])
+    pl = o.get("move") or o.get("copy")
+    if pl is None:
+        return "?"
+    base = "a%d" % pl["l"] if 0 < pl["l"] <= fn.argc else "_"
+    for e in pl["p"]:
+        if e == "*":
+            base = "*" + base
+        elif isinstance(e, dict) and "f" in e:
+            base += "." + str(e["f"])
+        elif isinstance(e, dict) and "as" in e:
+            base += "@" + str(e["as"])
+        elif isinstance(e, dict) and "idx" in e:
+            base += "[_]"
+        else:
+            base += "[?]"
+    return base
+
+
+def _def_shape(fn, k, st):
+    if k == "t":
+        return "call:%s(%s)" % (norm(st.get("res") or st.get("callee")) or "?", ",".join(_operand_shape(fn, a) for a in st.get("args", [])))
+    rv = st["rv"]
+    kk = rv["k"]
+    if kk == "use":
+        return "use:" + _operand_shape(fn, rv["a"])
+    if kk in ("bin",):
+        op = rv["op"].replace("WithOverflow", "").replace("Unchecked", "")
+        return "bin:%s(%s,%s)" % (op, _operand_shape(fn, rv["a"]), _operand_shape(fn, rv["b"]))
+    if kk == "un":
+        return "un:%s(%s)" % (rv.get("op"), _operand_shape(fn, rv["a"]))
+    if kk == "agg":
+        return "agg:%s::%s/%d" % (norm(rv.get("adt")) if rv.get("adt") else "", rv.get("variant"), len(rv.get("ops", [])))
+    if kk == "cast":
+        return "cast:%s(%s)" % (rv.get("ty"), _operand_shape(fn, rv["a"]))
+    if kk in ("ref", "rawptr"):
+        return "%s:%s" % (kk, _operand_shape(fn, {"copy": rv["of"]}))
+    return kk
+
+
+def local_signatures(fn):
+    """[(local index, name, name-free signature)] for the named locals of a body, in MIR order."""
+    out = []
+    defs = fn.defs()
+    for i, l in enumerate(fn.locals):
+        if not l.get("name"):
+            continue
+        if 0 < i <= fn.argc:
+            out.append((i, l["name"], "arg%d:%s" % (i, l["ty"])))
+            continue
+        shapes = []
+        for (b, k, st) in defs.get(i, []):
+            pl = st["lhs"] if k != "t" else st["dest"]
+            shapes.append(("part:" if pl["p"] else "") + _def_shape(fn, k, st))
+        out.append((i, l["name"], "%s|%s" % (l["ty"], "|".join(sorted(shapes)))))
+    return out
+
+
+def apply_local_roles(prog, roles):
+    """roles: {fn id: [[name, signature], ...]}.  Returns the number of locals renamed."""
+    n = 0
+    for fid, ref in (roles or {}).items():
+        fn = prog.fns.get(fid)
+        if fn is None:
+            continue
+        cur = local_signatures(fn)
+        if len(cur) != len(ref) or any(c[2] != r[1] for c, r in zip(cur, ref)):
+            continue
+        for (i, name, sig), (rname, rsig) in zip(cur, ref):
+            if name != rname:
+                fn.locals[i] = dict(fn.locals[i], name=rname, source_name=name)
+                n += 1
+    return n
 
 
 class AnchorMissing(Exception):
